@@ -38,6 +38,11 @@ def render_config(case, extra_indent: int = 0, comments: bool = False):
             out.append(G.acl_header(acl))
             for it in acl["items"]:
                 out.append(ind + G.item_line(it, platform, version, noise=False))
+        elif kind == "acl-cont":
+            # the same ACL header a second time (running-config followed by a change snippet): entries continue
+            out.append(G.acl_header(sec["acl"]))
+            for it in sec["acl"]["items"]:
+                out.append(ind + G.item_line(it, platform, version, noise=False))
         elif kind == "group":
             out.append(("object-group network " if platform == "ios" else "object-group ip address ") + sec["name"])
             if sec.get("desc"):
@@ -84,8 +89,13 @@ def validate(case):
     names, gnames = set(), set()
     first = True
     for sec in case["sections"]:
-        if not isinstance(sec, dict) or sec.get("s") not in ("acl", "group", "intf", "noise", "comment"):
+        if not isinstance(sec, dict) or sec.get("s") not in ("acl", "acl-cont", "group", "intf", "noise", "comment"):
             raise Invalid()
+        if sec["s"] == "acl-cont":
+            G.validate_acl(sec["acl"])
+            if sec["acl"]["name"] not in names or not sec["acl"]["items"] or sec["acl"]["platform"] != case["platform"]:
+                raise Invalid()  # a continuation follows the section it continues
+            continue
         if not isinstance(sec.get("ind", 1), int) or not 1 <= sec.get("ind", 1) <= 6:
             raise Invalid()
         if sec["s"] == "acl":
@@ -132,6 +142,9 @@ def expected(case):
         if s["s"] != "acl":
             continue
         acl = s["acl"]
+        more = [it for c in case["sections"] if c["s"] == "acl-cont" and c["acl"]["name"] == acl["name"] for it in c["acl"]["items"]]
+        if more:
+            acl = dict(acl, items=list(acl["items"]) + more)
         b = binds.get(acl["name"], {"in": set(), "out": set()})
         acls.append({"name": acl["name"], "type": "extended", "flat": G.flat_meaning(acl), "input": sorted(b["in"]),
                      "output": sorted(b["out"]),
@@ -256,7 +269,8 @@ def judge(case) -> Verdict:
     except R.RefError as ex:
         v.fail("aces:unreadable", dict(detail, why=str(ex)[:200]))
         return v
-    if flat != [m for w in want_acls for m in w["flat"]]:
+    text_order = [m for sec in case["sections"] if sec["s"] in ("acl", "acl-cont") for m in G.flat_meaning(sec["acl"])]
+    if flat != text_order:
         v.fail("aces:not-the-concatenation-of-acl-bodies", dict(detail, got=[o.line for o in items]))
     # addrgroups(): exactly the group sections, in order, with their members
     grs = cisco_acl.addrgroups(config, platform=platform)
@@ -330,12 +344,21 @@ def config_st(draw, tier):
                          "ind": draw(st.integers(1, 3))})
     for _ in range(draw(st.integers(0, 2))):
         sections.append({"s": "comment", "text": draw(st.sampled_from(["", " comment", " ip access-list extended FAKE"]))})
-    sections = draw(st.permutations(sections))
+    sections = list(draw(st.permutations(sections)))
+    if draw(st.sampled_from(range(5))) == 0:
+        cands = [i for i, sec in enumerate(sections) if sec["s"] == "acl" and len(sec["acl"]["items"]) >= 2]
+        if cands:
+            i = draw(st.sampled_from(cands))
+            base = sections[i]["acl"]
+            cut = draw(st.integers(1, len(base["items"]) - 1))
+            cont = dict(base, items=base["items"][cut:])
+            sections[i] = dict(sections[i], acl=dict(base, items=base["items"][:cut]))
+            sections.insert(draw(st.integers(i + 1, len(sections))), {"s": "acl-cont", "acl": cont, "ind": draw(st.integers(1, 4))})
     names = None
     if draw(st.integers(0, 2)) == 0:
         near = [n + "0" for n in acl_names] + ["x" + n for n in acl_names] + [n[:-1] for n in acl_names if len(n) > 1]
         names = draw(st.lists(st.sampled_from(acl_names + near + ["NOPE"]), max_size=3, unique=True))
-    prefix = sections[0]["acl"]["prefix"] if sections and sections[0]["s"] == "acl" else "= "
+    prefix = sections[0]["acl"]["prefix"] if sections and sections[0]["s"] in ("acl", "acl-cont") else "= "
     opts = {}
     if draw(st.booleans()):
         for key, strat in (("port_nr", st.booleans()), ("protocol_nr", st.booleans()),
